@@ -324,10 +324,10 @@ func c04RunFault(t *testing.T, d c04Doc, f c04Fault, forced []formats.Format) {
 	data := c.Encode(hx.EncOpts{})
 	hx.Eval()
 	hx.Journal([]byte(base64.StdEncoding.EncodeToString(data)))
-	if o := totalityCheck(data, forced, 30*time.Second); o != nil {
+	if o := totalityCheck(data, forced, c04Budget); o != nil {
 		if o.Hang {
 			// re-run alone twice before a slow case counts
-			if totalityCheck(data, forced, 30*time.Second) == nil {
+			if totalityCheck(data, forced, c04Budget) == nil {
 				hx.Note("slow case did not reproduce: %s", text)
 				return
 			}
@@ -424,7 +424,7 @@ func genHostileInput(t *rapid.T) ([]byte, string) {
 		head := rapid.SampledFrom([]string{"", `{"bomFormat":"CycloneDX","specVersion":"1.5","components":`, `{"spdxVersion":"SPDX-2.3","packages":`}).Draw(t, "head")
 		return []byte(head + strings.Repeat(open, n)), kind
 	case "huge_string":
-		n := rapid.SampledFrom([]int{1 << 10, 1 << 16, 1 << 20}).Draw(t, "len")
+		n := rapid.SampledFrom([]int{1 << 10, 1 << 14, 1 << 17}).Draw(t, "len")
 		return []byte(`{"bomFormat":"CycloneDX","specVersion":"1.5","serialNumber":"` + strings.Repeat("A", n) + `","components":[{"name":"` + strings.Repeat("é", n/2) + `"}]}`), kind
 	case "tagvalue":
 		lines := rapid.SliceOfN(rapid.SampledFrom([]string{"SPDXVersion: SPDX-2.3", "SPDXVersion: SPDX-2.2", "DataLicense: CC0-1.0", "SPDXID: SPDXRef-DOCUMENT", "PackageName: a", "##", "", "\"SPDX-2.3\"", "'SPDX-2.2'", "SPDXVersion:", "SPDX-2.3", strings.Repeat("x", 70000)}), 0, 12).Draw(t, "lines")
@@ -451,10 +451,24 @@ func c04BytesProperty(t *rapid.T) {
 	if hx.WantSample() && len(data) < 300 && len(data) > 10 {
 		hx.Sample(func() any { return map[string]string{"kind": kind, "input": fmt.Sprintf("%q", data)} })
 	}
-	if o := totalityCheck(data, nil, 30*time.Second); o != nil {
+	if o := totalityCheck(data, nil, c04Budget); o != nil {
+		if o.Hang {
+			// the call is still running in an abandoned goroutine: shrinking would start one more per attempt until the
+			// worker runs out of memory. Record the input and end this worker now; the driver replays the recorded case.
+			hx.RecordFailure("C04Bytes", fmt.Sprintf("%s (input kind %s)", o, kind), map[string]any{"data_b64": base64.StdEncoding.EncodeToString(data)})
+			hx.Flush()
+			fmt.Printf("--- FAIL: TestC04Bytes\n    %s (input kind %s, %d bytes)\n", o, kind, len(data))
+			os.Exit(1)
+		}
 		t.Fatalf("%s\n  input kind %s (%d bytes): %q", o, kind, len(data), trunc(string(data), 600))
 	}
 }
+
+// c04Budget is the wall-clock allowance of one parse. Generated inputs stay below 300 KB, where the library needs
+// milliseconds; a minute leaves room for a quadratic pass over such an input on a loaded machine, so that only growth
+// far beyond that (or a real hang) trips it. A stopwatch cannot tell polynomial from super-polynomial growth: this is
+// the "never hangs" clause, the growth clause is looked at by TestC04Scaling's doubling families.
+const c04Budget = 60 * time.Second
 
 func TestC04Bytes(t *testing.T) { rapid.Check(t, c04BytesProperty) }
 
@@ -498,7 +512,7 @@ func TestC04Scaling(t *testing.T) {
 			hx.Eval()
 			hx.Journal([]byte(base64.StdEncoding.EncodeToString(data)))
 			t0 := time.Now()
-			if o := totalityCheck(data, []formats.Format{}, 30*time.Second); o != nil {
+			if o := totalityCheck(data, []formats.Format{}, c04Budget); o != nil {
 				hx.RecordFailure("C04Scaling", fmt.Sprintf("%s (family %s, n=%d)", o, kind, n), map[string]any{"data_b64": base64.StdEncoding.EncodeToString(data)})
 				t.Fatalf("%s (family %s, n=%d, %d bytes)", o, kind, n, len(data))
 			}
@@ -530,7 +544,7 @@ func TestC04Replay(t *testing.T) {
 	if err != nil {
 		t.Fatalf("HARNESS-SELFTEST cannot decode replay: %v", err)
 	}
-	if o := totalityCheck(data, nil, 30*time.Second); o != nil {
+	if o := totalityCheck(data, nil, c04Budget); o != nil {
 		t.Fatalf("%s\n  input: %q", o, trunc(string(data), 1000))
 	}
 }
